@@ -166,8 +166,10 @@ impl Report {
             "wall_s": self.started.elapsed().as_secs_f64(),
             "violations": nviol,
         });
+        let evdir = std::env::var("VERIF_EVIDENCE_DIR").unwrap_or_else(|_| format!("{dir}/evidence"));
+        let _ = std::fs::create_dir_all(&evdir);
         std::fs::write(
-            format!("{dir}/evidence/{}.json", self.property),
+            format!("{evdir}/{}.json", self.property),
             serde_json::to_string_pretty(&ev).unwrap(),
         )
         .expect("write evidence");
